@@ -153,6 +153,15 @@ def check(ctx):
                 distinct.add(("dg", seq, t))
                 rec(datagram_case(seq, tail), dict(kind="datagram", seq=seq, tail=tail))
     samples.add(dict(kind="datagram", seq=(3, 0, 5), tail=TAILS[2]), "c")
+    # (e) the decoders must not depend on what was decoded before: the first id tuples and the datagram menu
+    # once more, after everything above has gone through the same process
+    for service, method, client, session in list(itertools.product(ids, repeat=4))[:64]:
+        f = (service, method, client, session, 1, 0x00, 0, payload(3))
+        n += 1
+        rec(one(f, b""), dict(kind="fields", fields=f, suffix=b"", after_history=True))
+    for seq in ((0,), (1, 2), (5, 4, 3)):
+        n += 1
+        rec(datagram_case(seq, b""), dict(kind="datagram", seq=seq, tail=b"", after_history=True))
     # (d) "any number of messages per datagram": as many empty-payload messages as a UDP datagram can hold
     for count in (255, 256, 1000, 2000, 4094):
         n += 1
